@@ -123,6 +123,38 @@ static QByteArray realEscAttr(const QString &s, bool &ok) {
 }
 static std::string hexB(const QByteArray &b) { return b.isEmpty() ? "-" : b.toHex().toStdString(); }
 
+// a reader that applies the line-end normalisation of XML 1.0 2.11: QXmlStreamReader (namespace processing off), brought to the
+// same canonical form (text runs merged, blank runs dropped as QDom does, so that only the line ends can differ)
+static std::string canonStdElem(QXmlStreamReader &rd) {   // rd is at a StartElement
+    std::vector<std::pair<std::string, std::string>> as;
+    for (const auto &a : rd.attributes()) as.emplace_back(hexOf(a.qualifiedName().toString()), hexOf(a.value().toString()));
+    std::sort(as.begin(), as.end());
+    std::string o = "(E " + hexOf(rd.qualifiedName().toString()) + " (";
+    for (size_t i = 0; i < as.size(); i++) { if (i) o += " "; o += "(" + as[i].first + " " + as[i].second + ")"; }
+    o += ") (";
+    bool first = true; QString pend;
+    auto flush = [&]() { if (!isBlank(pend)) { if (!first) o += " "; o += "(T " + hexOf(pend) + ")"; first = false; } pend.clear(); };
+    while (!rd.atEnd()) {
+        auto t = rd.readNext();
+        if (t == QXmlStreamReader::Characters) pend += rd.text().toString();
+        else if (t == QXmlStreamReader::StartElement) { flush(); if (!first) o += " "; o += canonStdElem(rd); first = false; }
+        else if (t == QXmlStreamReader::EndElement) { flush(); return o + "))"; }
+        else if (t == QXmlStreamReader::Invalid) break;
+    }
+    return "none";
+}
+static std::string canonStd(const QByteArray &xml) {
+    QXmlStreamReader rd(xml); rd.setNamespaceProcessing(false);
+    std::string out = "none";
+    while (!rd.atEnd()) {
+        auto t = rd.readNext();
+        if (t == QXmlStreamReader::StartElement) { out = canonStdElem(rd); break; }
+        if (t == QXmlStreamReader::Invalid) return "none";
+    }
+    while (!rd.atEnd()) rd.readNext();
+    return rd.hasError() ? "none" : out;
+}
+
 static std::string canonPlain(const QByteArray &xml) {   // namespace processing OFF: qualified names, xmlns kept as attributes
     QDomDocument doc;
     if (!doc.setContent(xml, false)) return "none";
@@ -150,6 +182,7 @@ static std::string skelOfXml(const QByteArray &xml) {
 // ------------------------------------------------------------------ trees
 struct Nd {
     bool text = false;
+    bool crRef = false;                                 // text node written by qxmpp's writeXmlTextElement(w, name, value): CR as &#13;
     QString name, txt;                                  // txt: text node content
     std::vector<std::pair<QString, QString>> attrs;     // in the order they are written
     std::vector<Nd> kids;
@@ -180,7 +213,7 @@ struct Gen {
         auto textKid = [&](const QString &v) { Nd t; t.text = true; t.txt = v; nodes++; return t; };
         switch (n.style) {
         case 1: n.kids.push_back(textKid(payload("text"))); break;
-        case 3: { QString v = payload("text"); if (!v.isEmpty()) n.kids.push_back(textKid(v)); break; }
+        case 3: { QString v = payload("text"); if (!v.isEmpty()) { n.kids.push_back(textKid(v)); n.kids.back().crRef = true; } break; }
         case 4: { n.attrs.emplace_back(u"xmlns"_qs, nsConst()); QString v = payload("text"); if (!v.isEmpty()) n.kids.push_back(textKid(v)); break; }
         case 5: n.attrs.emplace_back(u"xmlns"_qs, nsConst()); break;
         case 6: { QString v = payload("text"); if (v.isEmpty()) v = u"&"_qs; n.kids.push_back(textKid(v)); break; }
@@ -230,7 +263,7 @@ static void writeNd(QXmlStreamWriter &w, const Nd &n, Rng &r) {
     }
 }
 static std::string encRaw(const Nd &n) {  // the tree as given to the model: nothing merged, nothing dropped, attributes in written order
-    if (n.text) return "(T " + hexOf(n.txt) + ")";
+    if (n.text) return (n.crRef ? "(R " : "(T ") + hexOf(n.txt) + ")";
     std::string o = "(E " + hexOf(n.name) + " (";
     for (size_t i = 0; i < n.attrs.size(); i++) { if (i) o += " "; o += "(" + hexOf(n.attrs[i].first) + " " + hexOf(n.attrs[i].second) + ")"; }
     o += ") (";
@@ -281,6 +314,12 @@ static void runTree(Rng &r, int idx) {
     corr("xml-render " + enc, hexB(bytes));
     corr("xml-render-parse " + enc, canonOfXml(bytes));
     corr("xml-parse-plain " + hexB(bytes), canonPlain(bytes));
+    {   // the same bytes through a reader with line-end normalisation
+        std::string std_ = canonStd(bytes), plain = canonPlain(bytes);
+        corr("xml-parse-std " + hexB(bytes), std_);
+        if (bytes.contains('\r')) stat(std_ == plain ? "std.literal_cr.same_as_qdom" : "std.literal_cr.read_differently");
+        else { stat("std.no_literal_cr"); if (std_ != plain) stat("std.no_literal_cr.BUT_read_differently"); }
+    }
     stat("tree.total");
     stat("tree.nodes", g.nodes); stat("tree.bytes", bytes.size());
     stat("tree.depth_" + std::to_string(g.maxDepth));
@@ -333,6 +372,12 @@ static void runString(const QString &s, int idx, bool doOracle) {
     QByteArray t = realEscText(s, ok1), a = realEscAttr(s, ok2);
     corr("xml-esc-text " + hexOf(s), ok1 ? hexB(t) : "unexpected-frame");
     corr("xml-esc-attr " + hexOf(s), ok2 ? hexB(a) : "unexpected-frame");
+    {   // qxmpp's writeXmlTextElement(w, name, value): CR as &#13;
+        QByteArray b; { QXmlStreamWriter w(&b); w.writeStartElement(u"p"_qs); writeXmlTextElement(&w, u"a", s); w.writeEndElement(); }
+        QByteArray inner = b.mid(3, b.size() - 7);   // between <p> and </p>
+        std::string obs = inner == "<a/>" ? "-" : (inner.startsWith("<a>") && inner.endsWith("</a>")) ? hexB(inner.mid(3, inner.size() - 7)) : "unexpected-frame";
+        corr("xml-esc-text-cr " + hexOf(s), obs);
+    }
     // reading back: the escaped forms inside an attribute (attribute values are never dropped as blank)
     for (const QByteArray &x : { t, a }) {
         QDomDocument d;
@@ -350,7 +395,7 @@ static void runString(const QString &s, int idx, bool doOracle) {
     std::vector<Way> ways = {
         { "text", [&](QXmlStreamWriter &w) { w.writeStartElement(u"p"_qs); w.writeStartElement(u"a"_qs); w.writeCharacters(s); w.writeEndElement(); w.writeEndElement(); }, wrap(el("a", {}, &s)) },
         { "attr", [&](QXmlStreamWriter &w) { w.writeStartElement(u"p"_qs); w.writeStartElement(u"a"_qs); w.writeAttribute(u"k"_qs, s); w.writeEndElement(); w.writeEndElement(); }, wrap(el("a", { { u"k"_qs, s } }, nullptr)) },
-        { "text-helper", [&](QXmlStreamWriter &w) { w.writeStartElement(u"p"_qs); writeXmlTextElement(&w, u"a", s); w.writeEndElement(); }, wrap(el("a", {}, &s)) },
+        { "text-helper", [&](QXmlStreamWriter &w) { w.writeStartElement(u"p"_qs); writeXmlTextElement(&w, u"a", s); w.writeEndElement(); }, wrap(el("a", {}, &s)) },   // (mark irrelevant for the oracle)
         { "attr-helper", [&](QXmlStreamWriter &w) { w.writeStartElement(u"p"_qs); w.writeStartElement(u"a"_qs); writeOptionalXmlAttribute(&w, u"k", s); w.writeEndElement(); w.writeEndElement(); },
           wrap(s.isEmpty() ? el("a", {}, nullptr) : el("a", { { u"k"_qs, s } }, nullptr)) },
         // a data-valued namespace: the library's generic element (QXmppElement::toXml)
